@@ -6,7 +6,11 @@ use crate::util::*;
 use heathcliff::*;
 use num_complex::Complex64;
 
-struct Item { ct: Ciphertext, v: Vec<Complex64> }
+/// `eb`: worst-case absolute slot error of `ct` against `v`, propagated through the program from the noise sources
+/// (fresh encryption noise <= 21(2N+1) per coefficient — C01 `fresh_noise_bound`; encoder rounding 1/2 per coefficient; key-switch noise
+/// `bks` — the bound of the C04 oracle; rescale rounding (1 + N + … + N^(size-1))/2), a coefficient error E giving a slot error <= N*E/scale
+struct Item { ct: Ciphertext, v: Vec<Complex64>, eb: f64 }
+fn vmag(v: &[Complex64]) -> f64 { v.iter().map(|x| x.norm()).fold(0.0, f64::max) }
 
 fn plain_case(s: &Setup, p: &Plaintext, pid: &ParmsID) -> String {
     // a plaintext printed as a pseudo ciphertext case with ONE polynomial (NTT form)
@@ -32,11 +36,16 @@ pub fn run(out: &mut Out, thorough: bool, seed: u64, _extra: &[String]) {
         let p_special = *qs.last().unwrap();
         let sb = *r.pick(&[20i32, 25, 28]);
         let scale = 2f64.powi(sb);
+        let nf = n as f64;
+        let fresh_eb = nf * (21.0 * (2.0 * nf + 1.0) + 1.0) / scale;
+        let qmax = *qs[..qs.len() - 1].iter().max().unwrap() as f64;
+        let bks = (21.0 * nf * (qs.len() - 1) as f64 * (qmax / p_special as f64).ceil() + nf + 2.0) * (lg as f64 + 2.0);
         let mkv = |r: &mut Rng| -> Vec<Complex64> { (0..row).map(|_| match r.below(4) {
             0 => Complex64::new(0.0, ((r.below(33) as f64) - 16.0) / 4.0),          // purely imaginary
             1 => Complex64::new(-((r.below(17) as f64) / 2.0), 0.0),                // negative real
             _ => Complex64::new(((r.below(65) as f64) - 32.0) / 8.0, ((r.below(65) as f64) - 32.0) / 8.0) }).collect() };
-        let mut pool: Vec<Item> = (0..3).map(|_| { let v = mkv(&mut r); Item { ct: s.encryptor.encrypt_new(&enc.encode_c64_array_new(&v, None, scale)), v } }).collect();
+        // (a first level too small for the values at this scale is a legitimate encoder refusal: skip the parameter set)
+        let mut pool: Vec<Item> = match std::panic::catch_unwind(std::panic::AssertUnwindSafe(|| (0..3).map(|_| { let v = mkv(&mut r); Item { ct: s.encryptor.encrypt_new(&enc.encode_c64_array_new(&v, None, scale)), v, eb: fresh_eb } }).collect::<Vec<Item>>())) { Ok(p) => p, Err(_) => continue };
         let mut steps = 0; let mut tries = 0;
         while steps < (if thorough { 12 } else { 9 }) && tries < 80 {
             tries += 1;
@@ -49,35 +58,35 @@ pub fn run(out: &mut Out, thorough: bool, seed: u64, _extra: &[String]) {
             let op = if pool[ia].ct.scale() >= 2f64.powi(38) && r.chance(2, 3) { 9 } else { r.below(10) };
             let total_bits = s.ctx.get_context_data(a.ct.parms_id()).unwrap().total_coeff_modulus_bit_count();
             let res: Option<(String, String, Item)> = std::panic::catch_unwind(std::panic::AssertUnwindSafe(|| -> Option<(String, String, Item)> { match op {
-                0 => { let c = ev.negate_new(&a.ct); Some(("negate".into(), format!("{} {} {} | {} | {} | {}", bits(&a.ct), 0, bits(&c), s.ct_case(&a.ct), s.ct_case(&a.ct), s.ct_case(&c)), Item { ct: c, v: a.v.iter().map(|x| -x).collect() })) }
+                0 => { let c = ev.negate_new(&a.ct); Some(("negate".into(), format!("{} {} {} | {} | {} | {}", bits(&a.ct), 0, bits(&c), s.ct_case(&a.ct), s.ct_case(&a.ct), s.ct_case(&c)), Item { ct: c, v: a.v.iter().map(|x| -x).collect(), eb: a.eb })) }
                 1 | 2 => { if !same_scale { return None; } let sub = op == 2; let c = if sub { ev.sub_new(&a.ct, &b.ct) } else { ev.add_new(&a.ct, &b.ct) };
                     Some((if sub { "sub" } else { "add" }.into(), format!("{} {} {} | {} | {} | {}", bits(&a.ct), bits(&b.ct), bits(&c), s.ct_case(&a.ct), s.ct_case(&b.ct), s.ct_case(&c)),
-                        Item { ct: c, v: a.v.iter().zip(&b.v).map(|(x, y)| if sub { x - y } else { x + y }).collect() })) }
+                        Item { ct: c, v: a.v.iter().zip(&b.v).map(|(x, y)| if sub { x - y } else { x + y }).collect(), eb: a.eb + b.eb })) }
                 3 | 4 => { if a.ct.size() + b.ct.size() - 1 > 4 { return None; }
                     let rs = a.ct.scale() * b.ct.scale(); if !(rs.log2() < total_bits as f64 - 1.0) { return None; }
                     let c = ev.multiply_new(&a.ct, &b.ct);
                     Some(("multiply".into(), format!("{} {} {} | {} | {} | {}", bits(&a.ct), bits(&b.ct), bits(&c), s.ct_case(&a.ct), s.ct_case(&b.ct), s.ct_case(&c)),
-                        Item { ct: c, v: a.v.iter().zip(&b.v).map(|(x, y)| x * y).collect() })) }
+                        Item { ct: c, v: a.v.iter().zip(&b.v).map(|(x, y)| x * y).collect(), eb: vmag(&a.v) * b.eb + vmag(&b.v) * a.eb + a.eb * b.eb })) }
                 5 => { if 2 * a.ct.size() - 1 > 4 { return None; } let rs = a.ct.scale() * a.ct.scale(); if !(rs.log2() < total_bits as f64 - 1.0) { return None; }
                     let c = ev.square_new(&a.ct);
-                    Some(("square".into(), format!("{} {} {} | {} | {} | {}", bits(&a.ct), bits(&a.ct), bits(&c), s.ct_case(&a.ct), s.ct_case(&a.ct), s.ct_case(&c)), Item { ct: c, v: a.v.iter().map(|x| x * x).collect() })) }
+                    Some(("square".into(), format!("{} {} {} | {} | {} | {}", bits(&a.ct), bits(&a.ct), bits(&c), s.ct_case(&a.ct), s.ct_case(&a.ct), s.ct_case(&c)), Item { ct: c, v: a.v.iter().map(|x| x * x).collect(), eb: 2.0 * vmag(&a.v) * a.eb + a.eb * a.eb })) }
                 6 => { let pv = mkv(&mut r); let ps = 2f64.powi(*r.pick(&[10i32, 15, 20]));
                     let rs = a.ct.scale() * ps; if !(rs.log2() < total_bits as f64 - 1.0) { return None; }
-                    let p = enc.encode_c64_array_new(&pv, Some(*a.ct.parms_id()), ps);
+                    let p = match std::panic::catch_unwind(std::panic::AssertUnwindSafe(|| enc.encode_c64_array_new(&pv, Some(*a.ct.parms_id()), ps))) { Ok(p) => p, Err(_) => return None };
                     let c = ev.multiply_plain_new(&a.ct, &p);
                     Some(("multiply_plain".into(), format!("{} {} {} | {} | {} | {}", bits(&a.ct), p.scale().to_bits(), bits(&c), s.ct_case(&a.ct), plain_case(&s, &p, a.ct.parms_id()), s.ct_case(&c)),
-                        Item { ct: c, v: a.v.iter().zip(&pv).map(|(x, y)| x * y).collect() })) }
-                7 => { let pv = mkv(&mut r); let p = enc.encode_c64_array_new(&pv, Some(*a.ct.parms_id()), a.ct.scale()); let sub = r.chance(1, 2);
+                        Item { ct: c, v: a.v.iter().zip(&pv).map(|(x, y)| x * y).collect(), eb: vmag(&pv) * a.eb + (vmag(&a.v) + a.eb) * (nf * 0.5 / ps) })) }
+                7 => { let pv = mkv(&mut r); let p = match std::panic::catch_unwind(std::panic::AssertUnwindSafe(|| enc.encode_c64_array_new(&pv, Some(*a.ct.parms_id()), a.ct.scale()))) { Ok(p) => p, Err(_) => return None }; let sub = r.chance(1, 2);
                     let c = if sub { ev.sub_plain_new(&a.ct, &p) } else { ev.add_plain_new(&a.ct, &p) };
                     Some((if sub { "sub_plain" } else { "add_plain" }.into(), format!("{} {} {} | {} | {} | {}", bits(&a.ct), p.scale().to_bits(), bits(&c), s.ct_case(&a.ct), plain_case(&s, &p, a.ct.parms_id()), s.ct_case(&c)),
-                        Item { ct: c, v: a.v.iter().zip(&pv).map(|(x, y)| if sub { x - y } else { x + y }).collect() })) }
+                        Item { ct: c, v: a.v.iter().zip(&pv).map(|(x, y)| if sub { x - y } else { x + y }).collect(), eb: a.eb + nf * 0.5 / a.ct.scale() })) }
                 8 => { if a.ct.size() != 3 { return None; } let c = ev.relinearize_new(&a.ct, &relin);
-                    Some(("relinearize".into(), format!("{} {} {} | {} | {} | {}", bits(&a.ct), p_special, bits(&c), s.ct_case(&a.ct), s.ct_case(&a.ct), s.ct_case(&c)), Item { ct: c, v: a.v.clone() })) }
+                    Some(("relinearize".into(), format!("{} {} {} | {} | {} | {}", bits(&a.ct), p_special, bits(&c), s.ct_case(&a.ct), s.ct_case(&a.ct), s.ct_case(&c)), Item { eb: a.eb + nf * bks / c.scale(), ct: c, v: a.v.clone() })) }
                 _ => { // rescale (checked by the C05 handler `ckks_switch`)
-                    if lvl == 0 { return None; } let nb = total_bits - 64 + (qs[lvl].leading_zeros() as usize);
+                    if lvl == 0 { return None; } let nb = (total_bits + (qs[lvl].leading_zeros() as usize)).saturating_sub(64);
                     if !((a.ct.scale() / qs[lvl] as f64).log2() < nb as f64 - 1.0) || a.ct.scale() / (qs[lvl] as f64) < 256.0 { return None; }
                     let c = ev.rescale_to_next_new(&a.ct);
-                    Some(("rescale".into(), format!("ckks_switch rescale {} {} 1 {} | {}", bits(&a.ct), bits(&c), s.ct_case(&a.ct), s.ct_case(&c)), Item { ct: c, v: a.v.clone() })) }
+                    Some(("rescale".into(), format!("ckks_switch rescale {} {} 1 {} | {}", bits(&a.ct), bits(&c), s.ct_case(&a.ct), s.ct_case(&c)), Item { eb: a.eb + nf * 0.5 * (0..a.ct.size()).map(|i| nf.powi(i as i32)).sum::<f64>() / c.scale(), ct: c, v: a.v.clone() })) }
             } })).unwrap_or_else(|_| { let m = LAST_PANIC.with(|p| p.borrow().clone()); out.raw(&format!("!FAIL ckks_step op{} :: operation on valid, compatible operands refused: {} # panic", op, m.replace('\n', " "))); None });
             let (name, line, item) = match res { Some(x) => x, None => continue };
             steps += 1;
@@ -91,25 +100,31 @@ pub fn run(out: &mut Out, thorough: bool, seed: u64, _extra: &[String]) {
             let dec = enc.decode_new(&s.decryptor.decrypt_new(&item.ct));
             let mag = item.v.iter().map(|x| x.norm()).fold(1.0, f64::max);
             let err = (0..row).map(|i| (dec[i] - item.v[i]).norm()).fold(0.0, f64::max);
-            // only claim when the scale still resolves the values
-            if item.ct.scale() >= 2f64.powi(18) {
-                if err <= mag / 512.0 + 1.0 / 512.0 { out.raw(&format!("!OK ckks_slots {} err={:.3e} # slots-{}", name, err, name)); }
-                else { out.raw(&format!("!FAIL ckks_slots {} :: decoded slots differ from the complex shadow program by {:.3e} (magnitude {:.3e}, scale 2^{:.1}) # slots-{}", name, err, mag, item.ct.scale().log2(), name)); }
-            }
+            // only claim when the scale still resolves the values and the scaled values fit the level's modulus
+            // (|coefficient| <= max|slot| * scale; beyond Q/2 the decoding wraps — that is the caller's overflow, not a defect)
+            let lvl_bits = s.ctx.get_context_data(item.ct.parms_id()).unwrap().total_coeff_modulus_bit_count() as f64;
+            let tol = 2.0 * item.eb + mag * 1e-9 + 1e-9;
+            if !(mag.log2() + item.ct.scale().log2() + 3.0 < lvl_bits) { out.raw(&format!("!NOTE ckks_slots {} skipped: scaled values do not fit the level", name)); }
+            else if tol > mag / 4.0 + 0.25 { out.raw(&format!("!NOTE ckks_slots {} skipped: worst-case error bound {:.3e} exceeds the values", name, tol)); }
+            else if err <= tol { out.raw(&format!("!OK ckks_slots {} err={:.3e} bound={:.3e} # slots-{}", name, err, tol, name)); }
+            else { out.raw(&format!("!FAIL ckks_slots {} :: decoded slots differ from the complex shadow program by {:.3e}, worst-case bound {:.3e} (magnitude {:.3e}, scale 2^{:.1}) # slots-{}", name, err, tol, mag, item.ct.scale().log2(), name)); }
+            // results whose scaled values no longer fit are not reused (their descendants would differ from the shadow by the wrap-around)
+            if !(mag.log2() + item.ct.scale().log2() + 3.0 < lvl_bits) { continue; }
             if pool.len() < 8 { pool.push(item); } else { let k2 = r.below(pool.len() as u64) as usize; pool[k2] = item; }
         }
         // ---- refusals: different levels, scales that disagree, resulting scale that no longer fits
         let a = &pool[0].ct;
-        let base = s.encryptor.encrypt_new(&enc.encode_c64_array_new(&pool[0].v, None, scale));
+        let base = match std::panic::catch_unwind(std::panic::AssertUnwindSafe(|| s.encryptor.encrypt_new(&enc.encode_c64_array_new(&pool[0].v, None, scale)))) { Ok(b) => b, Err(_) => continue };
         if s.levels().len() >= 2 {
             let low = ev.mod_switch_to_next_new(&base);
             for (nm, f) in [("add", Box::new(|| { let _ = ev.add_new(&low, &base); }) as Box<dyn Fn() + '_>), ("sub", Box::new(|| { let _ = ev.sub_new(&base, &low); })), ("multiply", Box::new(|| { let _ = ev.multiply_new(&low, &base); }))] {
                 if std::panic::catch_unwind(std::panic::AssertUnwindSafe(|| f())).is_err() { out.raw(&format!("!OK ckks_refuse level-mismatch {} # refuse", nm)); } else { out.raw(&format!("!FAIL ckks_refuse level-mismatch {} :: ciphertexts of different levels were combined # refuse", nm)); }
             }
         }
-        let other = s.encryptor.encrypt_new(&enc.encode_c64_array_new(&pool[0].v, None, scale * 2.0));
+        if let Ok(other) = std::panic::catch_unwind(std::panic::AssertUnwindSafe(|| s.encryptor.encrypt_new(&enc.encode_c64_array_new(&pool[0].v, None, scale * 2.0)))) {
         for (nm, f) in [("add", Box::new(|| { let _ = ev.add_new(&other, &base); }) as Box<dyn Fn() + '_>), ("sub", Box::new(|| { let _ = ev.sub_new(&base, &other); }))] {
             if std::panic::catch_unwind(std::panic::AssertUnwindSafe(|| f())).is_err() { out.raw(&format!("!OK ckks_refuse scale-mismatch {} # refuse", nm)); } else { out.raw(&format!("!FAIL ckks_refuse scale-mismatch {} :: operands whose scales disagree were added # refuse", nm)); }
+        }
         }
         // scale bound: products whose scale reaches 2^bits(Q) must be refused, just below it accepted (rule = model `ckksScaleOk`)
         let tb = s.ctx.first_context_data().unwrap().total_coeff_modulus_bit_count();
@@ -146,12 +161,15 @@ fn deep_rescale(out: &mut Out, r: &mut Rng, thorough: bool) {
         let relin = s.keygen.create_relin_keys(false);
         let p_special = *qs.last().unwrap();
         let v: Vec<Complex64> = (0..row).map(|_| Complex64::new(((r.below(17) as f64) - 8.0) / 8.0, ((r.below(17) as f64) - 8.0) / 16.0)).collect();
-        let mut cur = Item { ct: s.encryptor.encrypt_new(&enc.encode_c64_array_new(&v, None, 2f64.powi(sb))), v };
+        let nf = n as f64; let lgf = (n.trailing_zeros()) as f64;
+        let qmax = *qs[..qs.len() - 1].iter().max().unwrap() as f64;
+        let bks = (21.0 * nf * (qs.len() - 1) as f64 * (qmax / p_special as f64).ceil() + nf + 2.0) * (lgf + 2.0);
+        let mut cur = Item { ct: s.encryptor.encrypt_new(&enc.encode_c64_array_new(&v, None, 2f64.powi(sb))), v, eb: nf * (21.0 * (2.0 * nf + 1.0) + 1.0) / 2f64.powi(sb) };
         loop {
             let cd = s.ctx.get_context_data(cur.ct.parms_id()).unwrap();
             let lvl = cd.chain_index(); let total_bits = cd.total_coeff_modulus_bit_count();
             if lvl == 0 { break; }
-            if !((cur.ct.scale() * cur.ct.scale()).log2() < total_bits as f64 - 1.0) { break; }
+            if !((cur.ct.scale() * cur.ct.scale()).log2() + 3.0 < total_bits as f64 - 1.0) { break; }
             let step = std::panic::catch_unwind(std::panic::AssertUnwindSafe(|| {
                 let sq = ev.square_new(&cur.ct);
                 let rl = ev.relinearize_new(&sq, &relin);
@@ -164,11 +182,13 @@ fn deep_rescale(out: &mut Out, r: &mut Rng, thorough: bool) {
             let nv: Vec<Complex64> = cur.v.iter().map(|x| x * x).collect();
             let dec = enc.decode_new(&s.decryptor.decrypt_new(&rs));
             let err = (0..row).map(|i| (dec[i] - nv[i]).norm()).fold(0.0, f64::max);
-            if rs.scale() >= 2f64.powi(18) {
-                if err <= 1.0 / 256.0 { out.raw(&format!("!OK ckks_slots deep err={:.3e} # slots-deep", err)); }
-                else { out.raw(&format!("!FAIL ckks_slots deep :: decoded slots differ from the complex shadow program by {:.3e} (scale 2^{:.1}) # slots-deep", err, rs.scale().log2())); }
-            }
-            cur = Item { ct: rs, v: nv };
+            let mag = vmag(&cur.v);
+            let eb = (2.0 * mag * cur.eb + cur.eb * cur.eb) + nf * bks / rl.scale() + nf * 0.5 * (1.0 + nf) / rs.scale();
+            let tol = 2.0 * eb + 1e-9;
+            if tol > 0.25 { out.raw("!NOTE ckks_slots deep skipped: worst-case error bound exceeds the values"); }
+            else if err <= tol { out.raw(&format!("!OK ckks_slots deep err={:.3e} bound={:.3e} # slots-deep", err, tol)); }
+            else { out.raw(&format!("!FAIL ckks_slots deep :: decoded slots differ from the complex shadow program by {:.3e}, worst-case bound {:.3e} (scale 2^{:.1}) # slots-deep", err, tol, rs.scale().log2())); }
+            cur = Item { ct: rs, v: nv, eb };
         }
     }
 }
